@@ -22,16 +22,23 @@ var registry = []*HarnessSpec{
 	{Prop: "C15", Name: "zzH15b", Pkg: pkgSystem, Tier: "quick", Bounds: "2 interfaces with symbolic flags, one symbolic route message per queried interface"},
 	{Prop: "C04", Name: "zzH04c", Pkg: pkgSystem, Tier: "quick", Bounds: "sysctl file content of 0..2 arbitrary bytes or a read error; forwarding and autoconf keys; write of either value"},
 	{Prop: "C11", Name: "zzH04c", Pkg: pkgSystem, Tier: "quick", Bounds: "the kernel autoconfiguration accessors behind system.State: the getter reads this interface's autoconf sysctl (true iff \"1\\n\"), the setter writes it (0..2 arbitrary content bytes or a read error)"},
+	{Prop: "C10", Name: "zzH10g", Pkg: pkgSystem, Tier: "quick", Bounds: "lookupInterface over the four outcomes of net.InterfaceByName (found; package net's no-such-interface OpError; another OpError; opaque error)"},
 	{Prop: "C10", Name: "zzH10f", Pkg: pkgSystem, Tier: "quick", Bounds: "interface flags symbolic (32 bits); 0..2 addresses each IPv6 (symbolic) / IPv4 / non-IPNet; listing failure"},
 	{Prop: "C17", Name: "zzH17b", Pkg: pkgCrhttp, Tier: "quick", Unwind: 200, Bounds: "debug API request for a monitoring interface plus an advertising interface with one stanza of every kind (real parser), prepared or never prepared, forwarding symbolic, State read failing or not"},
+	{Prop: "C04", Name: "zzH17b", Pkg: pkgCrhttp, Tier: "quick", Unwind: 200, Bounds: "debug-API path: the rendered router lifetime follows the forwarding state read for the request"},
+	{Prop: "C17", Name: "zzH17d", Pkg: pkgCrhttp, Tier: "quick", Bounds: "Handler.ServeHTTP for the paths /, /metrics, /debug/pprof/, /_/api/interfaces, /other with nothing optional enabled; mux dispatch and banner are environment stubs"},
 	{Prop: "C17", Name: "zzH17c", Pkg: pkgCrhttp, Tier: "quick", Bounds: "all four (prometheus, pprof) combinations"},
 	{Prop: "C17", Name: "zzH17a", Pkg: pkgCorerad, Tier: "quick", Unwind: 600, Bounds: "three interfaces (advertising with one stanza of every kind parsed by the real parser, monitoring, neither) in 3 orders; plugins prepared or never prepared; forwarding/autoconf per interface symbolic; lifetimes symbolic"},
+	{Prop: "C04", Name: "zzH17a", Pkg: pkgCorerad, Tier: "quick", Unwind: 600, Bounds: "metrics-scrape path: forwarding read per scrape, misconfiguration gauge iff not forwarding with a non-zero configured lifetime"},
 	{Prop: "C08", Name: "zzH08e", Pkg: pkgCorerad, Tier: "quick", MonoTime: true, NoNative: true, Explore: true, Sched: 3000, Bounds: "Advertiser.Run with all its real goroutines; a solicitation injected and the context cancelled back to back; goroutine schedules explored up to the budget"},
 	{Prop: "C08", Name: "zzH08d", Pkg: pkgCorerad, Tier: "quick", MonoTime: true, NoNative: true, Bounds: "Advertiser.Run with all its real goroutines over a scripted socket; stopped while idle / with a solicited response pending / with a solicited response in flight; terminate or reload"},
 	{Prop: "C08", Name: "zzH08b", Pkg: pkgCorerad, Tier: "quick", Bounds: "signalTask.Run for SIGINT / SIGTERM / SIGHUP with a cancel function that reads the recorded decision"},
 	{Prop: "C20", Name: "zzH08b", Pkg: pkgCorerad, Tier: "quick", Bounds: "signalTask.Run for SIGINT / SIGTERM / SIGHUP with a cancel function that reads the recorded decision"},
 	{Prop: "C20", Name: "zzH20a", Pkg: pkgCorerad, Tier: "quick", Params: map[string]int{"interfaces": 3}, Bounds: "3 interfaces, each advertise / monitor / neither; debug address set or empty"},
 	{Prop: "C20", Name: "zzH20b", Pkg: pkgCorerad, Tier: "quick", Unwind: 64, Bounds: "0..40 or unbounded *net.OpError results followed by ErrServerClosed / another error / cancellation"},
+	{Prop: "C20", Name: "zzH20e", Pkg: pkgCorerad, Tier: "quick", Bounds: "watcherTask.Run with a watcher returning nil / os.ErrNotExist / wrapped os.ErrNotExist / another error"},
+	{Prop: "C20", Name: "zzH08f", Pkg: pkgCorerad, Tier: "quick", Bounds: "Signals() and isTerminal for each of its elements"},
+	{Prop: "C08", Name: "zzH08f", Pkg: pkgCorerad, Tier: "quick", Bounds: "Signals() and isTerminal for each of its elements"},
 	{Prop: "C20", Name: "zzH20d", Pkg: pkgCorerad, Tier: "quick", Explore: true, Sched: 64, Race: true, Bounds: "signalTask.Run for SIGINT / SIGTERM / SIGHUP with one concurrent reader of the decision; lock discipline on terminator.term decided on every path and schedule; native validation under the Go race detector"},
 	{Prop: "C20", Name: "zzH20c", Pkg: pkgCorerad, Tier: "quick", Explore: true, NoNative: true, Sched: 4000, Params: map[string]int{"tasks": 2, "tasks@thorough": 3}, Bounds: "2 (3) stub tasks each with one of 5 behaviours; SIGINT / SIGTERM / SIGHUP / no signal delivered once everything is blocked; schedules explored up to the budget"},
 	{Prop: "C07", Name: "zzH09b", Pkg: pkgCorerad, Tier: "quick", NoNative: true, Bounds: "Listen + handle over a scripted socket: a valid RS from any IPv6 source or ::, with or without the zone the socket layer attaches"},
@@ -73,6 +80,7 @@ var registry = []*HarnessSpec{
 	{Prop: "C10", Name: "zzH10aCancel", Pkg: pkgSystem, Tier: "quick", Unwind: 60, Bounds: "cancellation during any of the first 4 waits, or none"},
 	{Prop: "C11", Name: "zzH11", Pkg: pkgSystem, Tier: "quick", Unwind: 60, Params: map[string]int{"failures": 1, "rounds": 2, "failures@thorough": 2, "rounds@thorough": 3}, Bounds: "both modes; up to `rounds` task rounds with every task outcome class; at most `failures` failing environment calls placed anywhere (lookup, check, dialNDP x3 classes, autoconf get, autoconf set/restore x3 classes)"},
 	{Prop: "C07", Name: "zzH07send", Pkg: pkgCorerad, Tier: "quick", Bounds: "one sendWorker call: destination all-nodes / any IPv6 address with or without zone, unicast_only, forwarding, header fields symbolic; write succeeds or fails"},
+	{Prop: "C01", Name: "zzH07send", Pkg: pkgCorerad, Tier: "quick", Bounds: "the RA actually transmitted by sendWorker carries the configured header fields and both options, for every destination kind, unicast-only setting and forwarding state"},
 	{Prop: "C07", Name: "zzH07a", Pkg: pkgCorerad, Tier: "quick", Bounds: "one handle call: RS (with/without source LLA) from any IPv6 / IPv4 / unspecified source; NS; NA"},
 	{Prop: "C04", Name: "zzH04a", Pkg: pkgConfig, Tier: "quick", Bounds: "Interface.RouterAdvertisement with all header fields, preference and two static plugins symbolic, forwarding on vs off"},
 	{Prop: "C04", Name: "zzH07send", Pkg: pkgCorerad, Tier: "quick", Bounds: "sendWorker: forwarding read once per RA; lifetime follows it"},
